@@ -178,6 +178,70 @@ def parseOp3 (ws : List String) : Option Op3 :=
   | ["depibc", c, g, u, n] => do pure (.depositIbc (← c.toNat?) (← g.toNat?) (← u.toNat?) (← n.toNat?))
   | ws => (parseOp2 ws).map .claim
 
+/-! ### ledger normalisation (driver only; speed).  The model's ledger is a function; every primitive wraps it in one more
+closure, so a balance look-up costs as much as the history is long.  Every few steps the driver tabulates the ledger over
+the addresses / assets of the fixed configuration into arrays; look-ups outside the table fall through to the function the
+table was made from, so the normalised ledger is extensionally the SAME ledger. -/
+
+def nUserSlots : Nat := 40
+def nAddrSlots : Nat := nUserSlots + 4 + 2 + 6
+def nAssetSlots : Nat := nGroups * 6
+
+def addrIdx : Addr → Option Nat
+  | .user u => if u < nUserSlots then some u else none
+  | .chainMod c => if c < 4 then some (nUserSlots + c) else none
+  | .erc20Mod => some (nUserSlots + 4)
+  | .wfx => some (nUserSlots + 5)
+  | .ext n => if n < 6 then some (nUserSlots + 6 + n) else none
+
+def addrOf (i : Nat) : Addr :=
+  if i < nUserSlots then .user i else
+  if i < nUserSlots + 4 then .chainMod (i - nUserSlots) else
+  if i == nUserSlots + 4 then .erc20Mod else
+  if i == nUserSlots + 5 then .wfx else .ext (i - nUserSlots - 6)
+
+def assetIdx : Asset → Option Nat
+  | .base g => if g < nGroups then some (g * 6) else none
+  | .bridge g c => if g < nGroups ∧ c < 4 then some (g * 6 + 1 + c) else none
+  | .erc g => if g < nGroups then some (g * 6 + 5) else none
+
+def assetOf (i : Nat) : Asset :=
+  let g := i / 6
+  let k := i % 6
+  if k == 0 then .base g else if k == 5 then .erc g else .bridge g (k - 1)
+
+def normLedger (L : Ledger) : Ledger :=
+  let tab : Array Nat := Array.ofFn (n := nAssetSlots * nAddrSlots) fun i => L.bal (assetOf (i.val / nAddrSlots)) (addrOf (i.val % nAddrSlots))
+  let sup : Array Nat := Array.ofFn (n := nAssetSlots) fun i => L.supply (assetOf i.val)
+  { bal := fun a x =>
+      match assetIdx a, addrIdx x with
+      | some i, some j => tab.getD (i * nAddrSlots + j) 0
+      | _, _ => L.bal a x
+    supply := fun a =>
+      match assetIdx a with
+      | some i => sup.getD i 0
+      | none => L.supply a
+    owner := L.owner }
+
+def normState (s : State3) : State3 := setBase s { s.s2.base with L := normLedger s.s2.base.L }
+
+def step3' (st : State3 × Nat) (line : String) : (State3 × Nat) × String :=
+  let s := st.1
+  match words line with
+  | "reset" :: rest =>
+    let m0fx := (rest.head?.bind String.toNat?).getD 0
+    -- the FX locked in the eth module account at genesis is what circulates on Ethereum
+    ((init3 (initE (ledger0 m0fx) (fun c g => if c = 0 ∧ g = 0 then m0fx else 0)), 0), "ok")
+  | ws =>
+    match parseOp3 ws with
+    | none => (st, "bad-op")
+    | some op =>
+      match step3 cfg0 s op with
+      | .ok s' =>
+        let s'' := if st.2 % 3 == 2 then normState s' else s'
+        ((s'', st.2 + 1), "ok " ++ showState3 s'')
+      | .error _ => (st, "err " ++ showState3 s)
+
 def step' (s : State3) (line : String) : State3 × String :=
   match words line with
   | "reset" :: rest =>
@@ -192,4 +256,4 @@ def step' (s : State3) (line : String) : State3 × String :=
       | .ok s' => (s', "ok " ++ showState3 s')
       | .error _ => (s, "err " ++ showState3 s)
 
-def main : IO Unit := runDriver step' (init3 (init (ledger0 0)))
+def main : IO Unit := runDriver step3' (init3 (init (ledger0 0)), 0)
